@@ -36,6 +36,18 @@ def _resolve_local(fn_node, expr, depth=3):
     return expr
 
 
+def edge_map_reset_rule(index, rep, rid):
+    """every re-encode drops the lazily built bipartition->edge / split->edge maps, unconditionally"""
+    enc = index.function(TREE + ".encode_bipartitions")
+    cfg = cfg_of(enc)
+    for attr in ("_split_bitmask_edge_map", "_bipartition_edge_map"):
+        resets = [n for n in cfg.nodes if n.kind == "stmt" and isinstance(n.ast, ast.Assign) and norm(n.ast.targets[0]) == "self." + attr and is_none(n.ast.value)]
+        ids = {n.id for n in resets}
+        ok = bool(resets) and cfg.dominated_by(cfg.exit, lambda n: n.id in ids, follow_exc=False)
+        rep.check(ok, rid, enc.qualname, "reset of " + attr, fn_where(enc), "encode_bipartitions: self.%s = None dominates every exit" % attr,
+                  "encode_bipartitions can return without resetting the cached `%s` (an equal list of split bitmasks does not mean the same Edge objects): distances and lookups after a re-encode use edges - and edge lengths - of the previous structure" % attr)
+
+
 def run(index, rep, tier):
     rep.rule("R01.1", "bit source: a taxon -> bit conversion exists only in TaxonNamespace.taxon_bitmask / all_taxa_bitmask (from the accession index); the leaf mask in encode_bipartitions is taxon_namespace.taxon_bitmask(leaf taxon)")
     rep.rule("R01.2", "leafset accumulation: the stored leafset mask is 0, the leaf's taxon bit, or the OR of ALL children's leafset masks")
@@ -211,12 +223,7 @@ def run(index, rep, tier):
     # ---- R01.5
     with rep.section("R01.5"):
         cfg = cfg_of(enc)
-        for attr in ("_split_bitmask_edge_map", "_bipartition_edge_map"):
-            resets = [n for n in cfg.nodes if n.kind == "stmt" and isinstance(n.ast, ast.Assign) and norm(n.ast.targets[0]) == "self." + attr and is_none(n.ast.value)]
-            ids = {n.id for n in resets}
-            ok = bool(resets) and cfg.dominated_by(cfg.exit, lambda n: n.id in ids, follow_exc=False)
-            rep.check(ok, "R01.5", enc.qualname, "reset of " + attr, fn_where(enc), "encode_bipartitions: self.%s = None dominates every exit" % attr,
-                      "encode_bipartitions can return without resetting the cached `%s`: distances and lookups after a re-encode use edges of the previous structure" % attr)
+        edge_map_reset_rule(index, rep, "R01.5")
         sets = [n for n in cfg.nodes if n.kind == "stmt" and isinstance(n.ast, ast.Assign) and norm(n.ast.targets[0]) == "self.bipartition_encoding"]
         seed_names = {"self.seed_node", "self._seed_node"} | {norm(n.targets[0]) for n in walk_no_nested(enc.node) if isinstance(n, ast.Assign) and norm(n.value) in ("self.seed_node", "self._seed_node")}
         ids = {n.id for n in sets}
